@@ -139,6 +139,12 @@ func C08(c *run.Ctx) int {
 			cfg.Entries = 2 + i%2
 		}
 		prog := cases.Generate(seed, cfg)
+		if i%2 == 1 {
+			// half of the programs additionally get locals / parameters that shadow module-scope names (valid WGSL)
+			if _, nren := wgen.ShadowEdit(prog.M, run.NewRng(seed^0x5AD0), 2); nren > 0 {
+				prog.Feat["edit.shadow-rename"] = true
+			}
+		}
 		return fmt.Sprintf("prog-%d", i), c08Eval(c, prog)
 	})
 	return c.Finish("generated valid WGSL compute modules (validity by construction; constructs hitting a listed known finding gated off) pushed through parse, lower, validate, the one-call API and every backend under several option sets; "+
